@@ -12,7 +12,7 @@ NA={
 COMMON_TRUST="Trusted: go/ssa translation (x/tools v0.29.0), the symgo interpreter (validated on every run by replaying every path witness natively, and by the 1108-file corpus differential `bin/vcheck SELFTEST`), z3 5.1.0 as deciding solver (sampled queries re-decided by z3 4.8.12 and cvc5 1.0)."
 C={}
 C['C13']=("Bounded symbolic execution of the real scanner SSA (scanner.Next, directive.NewDirectiveType, IsStartWithDirective) against a frozen keyword specification: every byte string of <=13 bytes after a directive-start position (all 256 values per byte) is covered by solver-derived paths; each path's assertions are discharged as SMT queries and each path witness is replayed natively.",
- "Bounds: <=13 bytes after the directive start, input ends after the deciding byte; quick = file start, thorough = 10 start contexts. Stubs: jerr.NewLocation by contract, DecodeRune on the concrete witness. "+COMMON_TRUST,
+ "Bounds: <=13 bytes after the directive start, input ends after the deciding byte; quick = file start, thorough = 9 start contexts. Stubs: jerr.NewLocation by contract, DecodeRune on the concrete witness. "+COMMON_TRUST,
  "concolic symbolic execution of go/ssa + SMT (z3) branch/assertion queries, differential against frozen keyword spec","§4 C13")
 C['C01']=("Every Go run-time check, explicit panic, step/recursion budget on every path of the real build (scanner, directive tree, INCLUDE via a virtual file system, MACRO/PASTE, catalog construction incl. jsight-schema-core's own SSA) is a branch whose panic side the solver must refute; inputs: all root files <=4/5 bytes, 2/3 arbitrary bytes after 55 state-witness prefixes, macro graphs <=3, include graphs, missing/dir/empty root.",
  "Bounds as listed in evidence.assumptions; longer inputs, OS failures other than not-exist/is-directory, memory exhaustion are outside. Stubs: virtual FS; NewLocation contract (proved in the same run); regexp/time/mail/json on concrete operands natively. "+COMMON_TRUST,
